@@ -28,11 +28,15 @@ class Delivery(object):
         evs = []
         # insertion order: events handed over as objects first (list order), then the rows loaded from
         # tables with add_custom_events, class by class
-        direct = [k for k, es in enumerate(spec["events"]) if not es.get("via_frame") and not es.get("late")]
+        direct = [k for k, es in enumerate(spec["events"]) if not es.get("via_frame") and not es.get("late") and not es.get("via_prices")]
         framed = sorted((k for k, es in enumerate(spec["events"]) if es.get("via_frame")),
                         key=lambda k: (["EvA", "EvB", "EvC"].index(spec["events"][k]["cls"]), k))
+        # a table of prices (add_prices) creates its events column by column (contracts in index order, the rate last),
+        # each column in time order, equal times in list order
+        priced = sorted((k for k, es in enumerate(spec["events"]) if es.get("via_prices")),
+                        key=lambda k: ((1, 0) if spec["events"][k]["c"] == "rate" else (0, spec["events"][k]["c"]), core.parse_t(spec["events"][k]["t"]), k))
         late = [k for k, es in enumerate(spec["events"]) if es.get("late") and not es.get("via_frame")]   # handed over last
-        rank = {k: r for r, k in enumerate(direct + framed + late)}
+        rank = {k: r for r, k in enumerate(direct + framed + priced + late)}
         for k, es in enumerate(spec["events"]):
             evs.append((core.parse_t(es["t"]), rank[k], es["id"], es))
         base = len(evs)
